@@ -62,6 +62,7 @@ FieldVals(F, deep, small) ==
   CASE F.kind = "prim" /\ F.placeholder -> {Sc("false")}
     [] F.kind = "prim" -> PrimElemVals(F, deep /\ ~small)
     [] F.kind = "custom" -> IF F.rep THEN {Nil, SeqV(<<Sc(NonZeroA(F.cls)), Sc(ZeroScalar(F.cls))>>)}
+                            ELSE IF F.ismap THEN {Nil, MapV([key \in {"k1", "k2"} |-> IF key = "k1" THEN Sc(NonZeroA(F.cls)) ELSE Sc(ZeroScalar(F.cls))])}
                             ELSE {Sc(ZeroScalar(F.cls)), Sc(NonZeroA(F.cls))}
     [] F.kind \in {"primlist", "objlist"} ->
          IF small THEN {Nil, SeqV(<<TwoOf(F, deep, TRUE)[1]>>)} ELSE ListsOver({}, TwoOf(F, deep, FALSE), deep)
